@@ -6,7 +6,7 @@ discipline of the downloader (`DisciplinedRun`: Schedule is called with `from` =
 headers accepted so far; the window length passed to a reservation is at most the cache length).
 `batches` is the list of batches `Results` returned along the run.
 -/
-import YouVerif.C18.ProofsRun
+import YouVerif.C18.ProofsFull
 namespace YouVerif.C18
 
 /-- Results never hands out more than `maxResultsProcess` items. -/
@@ -99,5 +99,180 @@ theorem body_matches (cacheLen maxProc : Nat) (fast : Bool) (offset : Nat) (ops 
   have := hi.retOK r (by rw [hret]; exact hr)
   rw [hcfg] at this
   exact this
+
+theorem mem_drop_iff {s : State} (hi : Inv s) (h : Header) :
+    h ∈ s.sched.drop s.ret.length ↔ h ∈ s.sched ∧ s.offset ≤ h.num := by
+  constructor
+  · intro hm
+    obtain ⟨i, hi'⟩ := List.mem_iff_getElem?.mp hm
+    rw [List.getElem?_drop] at hi'
+    have := hi.schedNum _ _ hi'
+    exact ⟨List.mem_iff_getElem?.mpr ⟨_, hi'⟩, by rw [hi.offsetEq]; omega⟩
+  · rintro ⟨hm, hlo⟩
+    obtain ⟨i, hi'⟩ := List.mem_iff_getElem?.mp hm
+    have := hi.schedNum _ _ hi'
+    have hoff := hi.offsetEq
+    apply List.mem_iff_getElem?.mpr
+    refine ⟨i - s.ret.length, ?_⟩
+    rw [List.getElem?_drop]
+    have : s.ret.length + (i - s.ret.length) = i := by omega
+    rw [this]; exact hi'
+
+/-- **No task lost, none duplicated.**  For each kind (bodies; receipts in fast/light mode) a header occurs at most
+once across the task queue, all in-flight requests and the done pool, and only if it is scheduled and not yet
+returned.  As long as no operation answered errInvalidChain (`failed = false`; the downloader aborts the sync on
+that error), every scheduled, not yet returned header occurs exactly once: it is in exactly one of
+task queue | the request of exactly one peer | done pool. -/
+theorem no_task_lost (cacheLen maxProc : Nat) (fast : Bool) (offset : Nat) (ops : List Op)
+    (hd : DisciplinedRun (init cacheLen maxProc fast offset) ops) :
+    let s := run (init cacheLen maxProc fast offset) ops
+    let out := (batches (init cacheLen maxProc fast offset) ops).flatten
+    (∀ k h, occ (s.pools k) h ≤ 1) ∧
+    (∀ k h, 0 < occ (s.pools k) h → h ∈ s.sched.drop out.length) ∧
+    (s.failed = false → ∀ k, (k = .body ∨ fast = true) → ∀ h ∈ s.sched.drop out.length, occ (s.pools k) h = 1) := by
+  intro s out
+  have hi : Inv s := inv_run (inv_init _ _ _ _) ops hd
+  have hf : Full s := full_run (inv_init _ _ _ _) (full_init _ _ _ _) ops hd
+  have hret : s.ret = out := by
+    have := ret_run (init cacheLen maxProc fast offset) ops
+    rw [show (init cacheLen maxProc fast offset).ret = [] from rfl, List.nil_append] at this
+    exact this
+  have hcfg : s.cfg.fast = fast := by
+    have : ∀ (t : State) (l : List Op), (run t l).cfg = t.cfg := by
+      intro t l
+      induction l generalizing t with
+      | nil => rfl
+      | cons op l ih =>
+        show (run (step t op) l).cfg = t.cfg
+        rw [ih]
+        cases op with
+        | schedule hs f => exact (scheduleLoop_frame hs f t).1
+        | reserve k l p c => exact (reserve_frame t k l p c).cfg
+        | deliver k p bs => exact (deliver_frame t k p bs).cfg
+        | cancel k p => rfl
+        | expire k ps => rfl
+        | revoke p => rfl
+        | results => rfl
+    show (run (init cacheLen maxProc fast offset) ops).cfg.fast = fast
+    rw [this]; rfl
+  refine ⟨hi.occLe, ?_, ?_⟩
+  · intro k h hp
+    rw [← hret]; exact (mem_drop_iff hi h).mpr (hi.occSched k h hp)
+  · intro hfail k hact h hm
+    rw [← hret] at hm
+    obtain ⟨hs, hlo⟩ := (mem_drop_iff hi h).mp hm
+    have h1 := hf hfail k (by unfold Active; rw [hcfg]; exact hact) h hs hlo
+    have h2 := hi.occLe k h
+    omega
+
+/-! ### progress -/
+
+/-- a correct answer to the peer's pending request: for every requested header a list hashing to its root -/
+def honestAnswer (s : State) (k : Kind) (p : Nat) : List Nat := ((pget (s.pools k).pend p).getD []).map (root k)
+
+def allPeers (s : State) (k : Kind) : List Nat := (s.pools k).pend.map (·.1)
+
+/-- one honest round: every in-flight request times out, the honest peer `p` reserves and answers correctly
+(bodies, then receipts), the importer collects results -/
+def honestRound (p limit count : Nat) (s : State) : State :=
+  let s1 := (expire s .body (allPeers s .body)).1
+  let s2 := (expire s1 .rcpt (allPeers s1 .rcpt)).1
+  let s3 := (reserve s2 .body limit p count).1
+  let s4 := (deliver s3 .body p (honestAnswer s3 .body p)).1
+  let s5 := (reserve s4 .rcpt limit p count).1
+  let s6 := (deliver s5 .rcpt p (honestAnswer s5 .rcpt p)).1
+  (results s6).1
+
+def honestRounds (p limit count : Nat) : Nat → State → State
+  | 0, s => s
+  | n + 1, s => honestRounds p limit count n (honestRound p limit count s)
+
+/-- FULL progress statement (not proved here; sampled by the correspondence harness, whose final drain performs
+exactly these rounds on the real queue and the model and demands at least one returned block per round):
+from every reachable state, one honest round per outstanding block hands the whole scheduled chain to the importer.
+Missing for a proof: the throttle/window counting argument (`never_invalid_chain_statement`) and the
+composition of the four steps of a round. -/
+def progress_statement : Prop :=
+  ∀ (cacheLen maxProc : Nat) (fast : Bool) (offset : Nat) (ops : List Op),
+    DisciplinedRun (init cacheLen maxProc fast offset) ops → 0 < cacheLen → 0 < maxProc →
+    ∀ (p limit count : Nat), 0 < limit → limit ≤ cacheLen → 0 < count →
+      let s := run (init cacheLen maxProc fast offset) ops
+      lget s.lacking p = [] →
+      ((honestRounds p limit count (s.sched.length - s.ret.length) s).ret.map (·.header) = s.sched)
+
+/-- FULL statement (not proved here; the harness' oracle reports any errInvalidChain of the real queue under
+disciplined calls as a violation): the index checks of reserveHeaders and deliver never fire, i.e. throttling by
+`resultSlots` keeps every popped header inside the result window. -/
+def never_invalid_chain_statement : Prop :=
+  ∀ (cacheLen maxProc : Nat) (fast : Bool) (offset : Nat) (ops : List Op),
+    DisciplinedRun (init cacheLen maxProc fast offset) ops →
+    (run (init cacheLen maxProc fast offset) ops).failed = false
+
+/-- PARTIAL (progress, last step): once the block at the head of the window is complete, `Results` returns it. -/
+theorem progress_results_partial (s : State) (r : Result) (hc : 0 < s.cfg.cacheLen) (hm : 0 < s.cfg.maxProc)
+    (h : cget s.cache s.offset = some r) (hp : r.pending ≤ 0) : (results s).2 ≠ [] := by
+  simp only [results]
+  obtain ⟨c, hc'⟩ : ∃ c, s.cfg.cacheLen = c + 1 := ⟨s.cfg.cacheLen - 1, by omega⟩
+  have h1 : 1 ≤ countProc s.cache s.offset s.cfg.cacheLen 0 := by
+    rw [hc']
+    simp only [countProc, Nat.add_zero, h]
+    have : ¬ r.pending > 0 := by omega
+    simp only [this, if_false]; omega
+  obtain ⟨n, hn⟩ : ∃ n, min (countProc s.cache s.offset s.cfg.cacheLen 0) s.cfg.maxProc = n + 1 :=
+    ⟨min (countProc s.cache s.offset s.cfg.cacheLen 0) s.cfg.maxProc - 1, by omega⟩
+  rw [hn]
+  simp [takeResults, h]
+
+/-- PARTIAL (progress, first step): a timeout of all peers empties the request pool — by `no_task_lost`
+(Reshuffle keeps every occurrence) all their tasks are back in the queue. -/
+theorem progress_expire_all_partial (p : Pools) (out : List (Nat × Nat)) :
+    (expireLoop (p.pend.map (·.1)) p out).1.pend = [] := by
+  obtain ⟨pool, queue, pend, done⟩ := p
+  induction pend generalizing queue out with
+  | nil => simp [expireLoop]
+  | cons e t ih =>
+    obtain ⟨k, v⟩ := e
+    simp only [List.map_cons, expireLoop, pget, if_true, perase]
+    exact ih _ _
+
+/-- PARTIAL (the lower half of `never_invalid_chain_statement`): no task below the result window is ever queued,
+in flight or done, so the `index < 0` check can not fire. -/
+theorem tasks_not_below_window_partial (cacheLen maxProc : Nat) (fast : Bool) (offset : Nat) (ops : List Op)
+    (hd : DisciplinedRun (init cacheLen maxProc fast offset) ops) :
+    let s := run (init cacheLen maxProc fast offset) ops
+    ∀ k h, 0 < occ (s.pools k) h → s.offset ≤ h.num := by
+  intro s k h hp
+  exact ((inv_run (inv_init _ _ _ _) ops hd).occSched k h hp).2
+
+/-! ### non-vacuity: a concrete disciplined run with faults (tests, evaluated by `decide`) -/
+
+instance (s : State) (op : Op) : Decidable (Disciplined s op) := by
+  cases op <;> simp only [Disciplined] <;> infer_instance
+
+instance : (s : State) → (ops : List Op) → Decidable (DisciplinedRun s ops)
+  | _, [] => isTrue trivial
+  | s, op :: ops =>
+    have := instDecidableDisciplinedRun (step s op) ops
+    by simp only [DisciplinedRun]; infer_instance
+
+def hdr (n tx : Nat) : Header := { num := n, hash := n + 100, parent := n + 99, txRoot := tx, rcRoot := 0, numNil := false }
+
+/-- schedule 10,11,12 (11 is an empty block); peer 1 gets 10 and 12 and answers the first one wrongly;
+peer 2 answers correctly after the retry; Results (batch limit 2) returns 10,11 and then 12 -/
+def demoOps : List Op :=
+  [ .schedule [hdr 10 7, hdr 11 0, hdr 12 9] 10,
+    .reserve .body 4 1 5,
+    .deliver .body 1 [8, 9],
+    .results,
+    .reserve .body 4 2 5,
+    .deliver .body 2 [7, 9],
+    .results,
+    .results ]
+
+example : DisciplinedRun (init 4 2 false 10) demoOps := by decide
+example : ((batches (init 4 2 false 10) demoOps).flatten.map (·.header.num)) = [10, 11, 12] := by decide
+example : (run (init 4 2 false 10) demoOps).failed = false := by decide
+example : ((honestRounds 9 4 3 3 (run (init 4 2 true 10) [.schedule [hdr 10 7, hdr 11 0, hdr 12 9] 10])).ret.map (·.header.num))
+    = [10, 11, 12] := by decide
 
 end YouVerif.C18
